@@ -227,6 +227,7 @@ class Repo:
         self.modules: t.Dict[str, Mod] = {}
         self.classes: t.Dict[str, Cls] = {}
         self.funcs: t.Dict[str, Func] = {}
+        self.moved: t.Dict[str, str] = {}  # anchor asked for -> where the (unique) definition of that name lives now
         self._load()
 
     # ------------------------------------------------------------------ load
@@ -357,11 +358,23 @@ class Repo:
 
     def func(self, qual: str) -> Func:
         if qual not in self.funcs:
+            # moved to another module of the package: the same (Class.)name, defined exactly once elsewhere
+            parts = qual.split(".")
+            tail = parts[-2:] if len(parts) >= 2 and parts[-2][:1].isupper() else parts[-1:]
+            cands = [f for q, f in self.funcs.items() if q.split(".")[-len(tail):] == tail and (len(tail) == 2 or f.cls is None)]
+            if len(cands) == 1:
+                self.moved[qual] = cands[0].qual
+                return cands[0]
             raise AnalysisError(f"anchor function {qual!r} not found")
         return self.funcs[qual]
 
     def cls(self, qual: str) -> Cls:
         if qual not in self.classes:
+            name = qual.split(".")[-1]
+            cands = [c for q, c in self.classes.items() if q.split(".")[-1] == name]
+            if len(cands) == 1:
+                self.moved[qual] = cands[0].qual
+                return cands[0]
             raise AnalysisError(f"anchor class {qual!r} not found")
         return self.classes[qual]
 
